@@ -136,6 +136,58 @@ func poolStress(args []string) int {
 		_ = enc.Encode(core.Ev{"op": "final", "finished": finished})
 		lg.mu.Unlock()
 	}
+	// restart after a refused Submit that panics (WithPanicOnSubmitAfterShutdown): the pool is stopped, a Submit panics and is
+	// recovered, the pool is started again, runs a task, is shut down: the second life must complete like any other
+	for tr := 0; tr < 4; tr++ {
+		workers := 1 + tr%2
+		lg := &plog{}
+		p := hive.New("again", hive.WithWorkerCount(workers), hive.WithPanicOnSubmitAfterShutdown(true))
+		var incs atomic.Int64
+		p.PendingTasksCounter.Subscribe(func(o, n int) {
+			if n > o {
+				incs.Add(1)
+			}
+		})
+		p.Start()
+		p.Shutdown()
+		p.ShutdownComplete.Wait()
+		done := make(chan struct{})
+		go func() {
+			defer close(done)
+			lg.add(core.Ev{"op": "begin", "k": 1})
+			before := incs.Load()
+			func() {
+				defer func() { _ = recover() }()
+				p.Submit(func() { lg.add(core.Ev{"op": "run", "k": 1}) })
+			}()
+			lg.add(core.Ev{"op": "end", "k": 1, "acc": incs.Load() > before})
+			p.Start()
+			lg.add(core.Ev{"op": "begin", "k": 2})
+			before = incs.Load()
+			p.Submit(func() { lg.add(core.Ev{"op": "run", "k": 2}) })
+			lg.add(core.Ev{"op": "end", "k": 2, "acc": incs.Load() > before})
+			p.Shutdown()
+			p.ShutdownComplete.Wait()
+			lg.add(core.Ev{"op": "complete", "pending": p.PendingTasksCounter.Get()})
+		}()
+		finished := true
+		select {
+		case <-done:
+		case <-time.After(5 * time.Second):
+			finished = false
+			hangs++
+		}
+		lg.mu.Lock()
+		_ = enc.Encode(core.Ev{"op": "reset", "cfg": core.Ev{"workers": workers, "cancel": false}})
+		for _, e := range lg.evs {
+			_ = enc.Encode(e)
+		}
+		if !finished {
+			_ = enc.Encode(core.Ev{"op": "complete", "pending": 0})
+		}
+		_ = enc.Encode(core.Ev{"op": "final", "finished": finished})
+		lg.mu.Unlock()
+	}
 	for tr := 0; tr < *traces; tr++ {
 		workers := 1 + rng.Intn(4)
 		cancel := rng.Intn(2) == 0
